@@ -108,7 +108,7 @@ _FORBIDDEN_CODECS = {"imap4-utf-7", "imap4_utf_7", "xtext"}
 
 # stdlib functions whose documented semantics the evaluator delegates to CPython (never repository code)
 STDLIB = {"re.compile": re.compile, "re.escape": re.escape, "re.sub": re.sub, "re.subn": re.subn, "re.match": re.match, "re.search": re.search,
-          "re.fullmatch": re.fullmatch, "re.split": re.split, "re.findall": re.findall,
+          "re.fullmatch": re.fullmatch, "re.split": re.split, "re.findall": re.findall, "re.finditer": re.finditer,
           "struct.pack": struct.pack, "struct.unpack": struct.unpack, "struct.calcsize": struct.calcsize, "struct.Struct": struct.Struct,
           "textwrap.wrap": textwrap.wrap, "textwrap.fill": textwrap.fill, "textwrap.TextWrapper": textwrap.TextWrapper,
           "urllib.parse.quote": urllib.parse.quote, "urllib.parse.unquote": urllib.parse.unquote, "urllib.parse.unquote_to_bytes": urllib.parse.unquote_to_bytes,
@@ -137,8 +137,8 @@ def _stdlib_codec(fn):
 STDLIB["codecs.encode"] = _stdlib_codec("encode")
 STDLIB["codecs.decode"] = _stdlib_codec("decode")
 _RE_FLAGS = {"re." + n: getattr(re, n) for n in ("I", "IGNORECASE", "M", "MULTILINE", "S", "DOTALL", "X", "VERBOSE", "A", "ASCII")}
-_OBJECT_METHODS = {re.Pattern: {"sub", "subn", "match", "search", "fullmatch", "split", "findall"},
-                   re.Match: {"group", "groups", "start", "end", "span", "groupdict"},
+_OBJECT_METHODS = {re.Pattern: {"sub", "subn", "match", "search", "fullmatch", "split", "findall", "finditer"},
+                   re.Match: {"group", "groups", "start", "end", "span", "groupdict", "expand"},
                    struct.Struct: {"pack", "unpack", "unpack_from"},
                    textwrap.TextWrapper: {"wrap", "fill"},
                    io.BytesIO: {"write", "getvalue", "tell"},
